@@ -136,6 +136,26 @@ def Th.initial : Th → Bool
   | .w0 _ => true
   | _ => false
 
+/-! ## a variant for the witnesses: `Listener(v)` that looks the entry up under the read lock and uses it under the write lock -/
+
+inductive ThS
+  | base (t : Th)
+  | mkStale (v : Nat) (seen : Option (Option Nat))   -- `none`: before the read-locked lookup; `some r`: its result
+deriving DecidableEq, Repr
+
+/-- joining the entry of channel `c` without looking it up again -/
+def joinChan (s : Sh) (v c : Nat) : Sh :=
+  { s with counts := s.counts.set c (s.counts.getD c 0 + 1),
+           ls := s.ls ++ [{ value := v, chan := c, flag := false, dchan := false, hit := false }] }
+
+def stepS (s : Sh) : ThS → List (Sh × ThS)
+  | .base t => (step s t).map (fun p => (p.1, .base p.2))
+  | .mkStale v none => [(s, .mkStale v (some (lookup s v)))]
+  | .mkStale v (some (some c)) => [(joinChan s v c, .base (.mk v true))]
+  | .mkStale v (some none) => [(create s v, .base (.mk v true))]
+
+def sysS : Sys Sh ThS := { step := stepS }
+
 /-! ## the `vn` lines on this model (sequentialised: every call runs to completion)
 
 The driver runs the `vn` request lines of the harness (sections `vn`, `vc`, `vx`) on the sequential machine of
